@@ -144,6 +144,8 @@ func mkTree(k int) *tree {
 	file("a.txt")
 	dir(rootRel + "2") // sibling whose name has the root as string prefix
 	file(rootRel + "2/steal.txt")
+	file(rootRel + "2/steal.txt.br") // pre-compressed siblings of outside files: must never be served
+	file("a.txt.gz")
 	file(rootRel + ".gz")
 	// the directory name is a hash of the tree's content, so a stale tree of another harness version is never reused
 	hh := sha1.New()
@@ -305,6 +307,10 @@ func gen(r *hv.Rng, i int, tier string) (string, hv.Val) {
 		if compress && r.Chance(1, 2) {
 			ae = r.Pick([]string{"gzip, br", "br,gzip", "gzip", "br", "br, gzip, deflate"})
 		}
+	}
+	if strings.HasPrefix(class, "escape") && r.Chance(1, 3) { // the sibling lookup must not be a way out of the root either
+		compress = true
+		ae = r.Pick([]string{"gzip", "gzip, br", "br"})
 	}
 	if compress && class == "inside" && r.Chance(1, 2) { // files that have pre-compressed siblings in some trees
 		target = r.Pick([]string{"/index.html", "/sub/b.txt", "/a.txt", "/sub/b.txt.gz", "/sub/./b.txt", "/x/../sub/b.txt"})
